@@ -172,8 +172,12 @@ def run(ck: Check):
     for data in REPO_CASES:
         one("jsstr", data)
         one("attrs", data)
+    # one fragment repeated k times for every k up to a few hundred (give-up limits, windows)
+    from props.c06 import reload_same_object, repetition_sweeps
+    for atom, data in repetition_sweeps(quick):
+        if atom in ("jsstr", "attrs"):
+            one(atom, data, model=False)
     # the same object loading a second file (a library user, a second pass) splits it like a fresh object
-    from props.c06 import reload_same_object
     reload_same_object(ck)
     # files of 64 KiB and more (fast paths, windows): no backslash anywhere, quoted spans crossing line breaks,
     # apostrophes in comments; and one with escapes
